@@ -73,7 +73,7 @@ func sysName(start string, t []int) string {
 	return "sys:" + start + ":" + strings.Join(ns, ">")
 }
 
-func runSys(x *hist, r *hx.Rng, g int, start string, t []int) {
+func runSys(x *hist, r *hx.Rng, g int, start string, t []int, genesisAfter bool) {
 	var o []int
 	for i := 0; i <= nCand; i++ {
 		if i != g {
@@ -162,6 +162,11 @@ func runSys(x *hist, r *hx.Rng, g int, start string, t []int) {
 		}
 	}
 	x.end()
+	if genesisAfter {
+		// the state is exported after the block under test (between the two blocks of every two-phase
+		// process: upgrade pause -> upgrade, status change -> next commit) and imported into a fresh chain
+		x.genesis(nil)
+	}
 	// ---- follow-up block: nothing may be left over in the queues
 	x.newBlock(5)
 	x.allSign()
@@ -208,7 +213,7 @@ func thrCases() []thrCase {
 	return out
 }
 
-func runThr(x *hist, g int, c thrCase) {
+func runThr(x *hist, g int, c thrCase, genesisAfter bool) {
 	var o []int
 	for i := 0; i <= nCand; i++ {
 		if i != g {
@@ -232,6 +237,9 @@ func runThr(x *hist, g int, c thrCase) {
 			x.setProp(c.which, uint64(c.val)) // the proposal passes in the block of the k-th miss
 		}
 		x.end()
+	}
+	if genesisAfter {
+		x.genesis(nil)
 	}
 	for i := 0; i < 10 && !x.dead; i++ {
 		x.newBlock(5)
@@ -366,7 +374,7 @@ func lastCases() []lastCase {
 	return out
 }
 
-func runLast(x *hist, g int, c lastCase, r *hx.Rng) {
+func runLast(x *hist, g int, c lastCase, r *hx.Rng, genesisEach bool) {
 	ids := []int{g}
 	for i := 0; i <= nCand && len(ids) < c.n; i++ {
 		if i != g {
@@ -411,6 +419,9 @@ func runLast(x *hist, g int, c lastCase, r *hx.Rng) {
 			x.ownerMsgUpper("pause", id)
 		}
 		x.end()
+		if genesisEach && !last {
+			x.genesis(nil)
+		}
 	}
 	x.newBlock(5)
 	x.allSign()
